@@ -584,33 +584,35 @@ func (s *UnionSDF2) Evaluate(p v2.Vec) float64 {
 		return s.EvaluateSlow(p)
 	}
 
-	// work out the min/max distance for every bounding box
-	vs := make([]Interval, len(s.sdf))
-	minDist2 := -1.0
+	// work out the minimum distance to every bounding box
+	vs := make([]float64, len(s.sdf))
 	minIndex := 0
 	for i := range s.sdf {
-		vs[i] = s.sdf[i].BoundingBox().MinMaxDist2(p)
+		vs[i] = s.sdf[i].BoundingBox().MinMaxDist2(p)[0]
 		// as we go record the sdf with the minimum minimum d2 value
-		if minDist2 < 0 || vs[i][0] < minDist2 {
-			minDist2 = vs[i][0]
+		if vs[i] < vs[minIndex] {
 			minIndex = i
 		}
 	}
 
-	var d float64
-	first := true
+	// Start with the sdf whose bounding box is nearest. An sdf is no closer
+	// than its bounding box, so another sdf can only lower the minimum if its
+	// box is closer than the minimum found so far (with a margin for rounding).
+	// Comparing against the farthest point of the nearest box instead is wrong
+	// when that box is not tight, e.g. a Cut2D or Difference2D that removed
+	// the material in it.
+	d := s.sdf[minIndex].Evaluate(p)
 	for i := range s.sdf {
-		// only an sdf whose min/max distances overlap
-		// the minimum box are worthy of consideration
-		if i == minIndex || vs[minIndex].Overlap(vs[i]) {
-			x := s.sdf[i].Evaluate(p)
-			if first {
-				first = false
-				d = x
-			} else {
-				d = s.min(d, x)
-			}
+		if i == minIndex {
+			continue
 		}
+		if d > 0 && vs[i] >= d*d*(1+epsilon) {
+			continue
+		}
+		if d <= 0 && vs[i] > 0 {
+			continue
+		}
+		d = s.min(d, s.sdf[i].Evaluate(p))
 	}
 	return d
 }
